@@ -302,5 +302,26 @@ def _resolve_task():
     )
 
 
+def _oddpos_parse_labels_task():
+    """a label is ONE odd-position label whatever its type: ints, strings and tuple-valued labels
+    (lattice coordinates) each give exactly one non-dual operator carrying that label unchanged"""
+
+    def body(it):
+        fn = it.module_lookup("fermionic_core", "oddpos_parse")
+        for nm, lbl in (("int", 7), ("str", "p"), ("pair", (2, 3)), ("triple", (1, 0, 2)), ("nested", ((0, 1), 2))):
+            def post(r, lbl=lbl):
+                ok = isinstance(r, tuple) and len(r) == 1 and isinstance(r[0], SymObj) and r[0].cls is not None and r[0].cls.name == "FermionicOperator"
+                out = [("exactly_one_operator", ok)]
+                if ok:
+                    out.append(("label_kept_unchanged", r[0].fields.get("_label") == lbl and type(r[0].fields.get("_label")) is type(lbl)))
+                    out.append(("not_dual", r[0].fields.get("_dual") is False))
+                return out
+
+            check_call(it, f"oddpos_parse.odd_label_{nm}", fn, [lbl, 1], post=post)
+            check_call(it, f"oddpos_parse.even_label_{nm}_dropped", fn, [lbl, 0], post=lambda r: [("empty", r == ())])
+
+    return Task("C04.oddpos_parse.label_types", ["C04", "C01", "C16"], ["fermionic_core.oddpos_parse", FOP_CLS + ".__init__"], body)
+
+
 def tasks():
-    return [_order_task(), _oddpos_dag_task(), _oddpos_parse_task(), _resolve_task()]
+    return [_order_task(), _oddpos_dag_task(), _oddpos_parse_task(), _oddpos_parse_labels_task(), _resolve_task()]
